@@ -140,12 +140,13 @@ theorem SubstPre.copy_of (i : Nat) (hi : i < m.net.lines.size) (xd xr : Nat)
   rw [ct.newLine t ht, e]
   simp [mkLine, h1, h2]
 
-/-- a host line that ends at a node of `node_map` afterwards is a line at an input pin of the instance -/
-theorem SubstPre.host_reader_own (l x : Nat) (hl : l < h.net.lines.size) (hr : (h'.net.line l).reader = x)
+/-- a host line that points back in the host and ends at a node of `node_map` afterwards is a line at an input pin of the
+    instance -/
+theorem SubstPre.host_reader_own (l x : Nat) (hl : l < h.net.lines.size) (hp : PtsBack h l) (hr : (h'.net.line l).reader = x)
     (hx : x = c ∨ h.net.nodes.size ≤ x) : ∃ k, instIn h c k = some l := by
   by_cases e : (h.net.line l).reader = c
   · refine ⟨(h.net.line l).rpin, ?_⟩
-    have := (ct.hwf.back l hl).2.2.2
+    have : (h.net.node (h.net.line l).reader).ins.getD (h.net.line l).rpin none = some l := hp
     rw [e] at this; exact this
   · have f := (ct.rdrFrame l hl e).1
     have b := (ct.hwf.back l hl).2.1
@@ -158,7 +159,7 @@ theorem SubstPre.host_driver_own (l x : Nat) (hl : l < h.net.lines.size) (hr : (
     (hx : x = c ∨ h.net.nodes.size ≤ x) : ∃ k, instOut h c k = some l := by
   by_cases e : (h.net.line l).driver = c
   · refine ⟨(h.net.line l).dpin, ?_⟩
-    have := (ct.hwf.back l hl).2.2.1
+    have := (ct.hwf.back l hl).2.2
     rw [e] at this; exact this
   · have f := (ct.drvFrame l hl e).1
     have b := (ct.hwf.back l hl).1
